@@ -251,6 +251,8 @@ fn eval_inner(target: &str, input: &str) -> Option<String> {
         }
         "default_ns" => c10_default_ns_witness(),
         "fixed_doc" => c20_fixed_doc(input),
+        "id_tables" => c08_id_tables(input),
+        "node_map" => c11_node_map(input),
         "deep_equal" => deepeq::check(input),
         "three_routes" => routes::check(input),
         "strip_scope" => c18_strip_scope(input),
@@ -258,6 +260,7 @@ fn eval_inner(target: &str, input: &str) -> Option<String> {
         "scope_queries" => c09_scope(input),
         "ns_layout" => bounded::ns_layout(input),
         "char_ref" => bounded::char_ref(input),
+        "wf_reject" => bounded::wf_reject(input),
         "line_ends" => bounded::line_ends(input),
         "level_order" => bounded::level_order(input),
         "tree_ops" => {
@@ -313,9 +316,24 @@ fn inputs(target: &str, large: bool) -> Vec<String> {
             v
         }
         "ns_layout" => bounded::ns_layouts(),
+        "id_tables" => { let mut v = Vec::new(); for n in [1usize, 2, 7, 20, 41, 64, 150] { for stride in [1usize, 3, 7] { for via in ["api", "parse"] { v.push(format!("{} {} {}", n, stride, via)); } } } if large { v.push("700 11 api".into()); v.push("700 13 parse".into()); } v }
+        "node_map" => {
+            let ops = ['i', 'r', 'u', 'n', 'm', 'o', 'c', 'e'];
+            let mut seqs: Vec<String> = vec![String::new()];
+            let mut frontier = seqs.clone();
+            for _ in 0..(if large { 5 } else { 4 }) {
+                let mut next = Vec::new();
+                for s in &frontier { for o in ops { for k in 0..(if o == 'c' { 1 } else { 3 }) { next.push(format!("{}{}{}", s, o, k)); } } }
+                seqs.extend(next.iter().cloned());
+                frontier = next;
+            }
+            seqs.retain(|s| !s.is_empty());
+            seqs
+        }
         "deep_equal" => deepeq::inputs(),
         "three_routes" => routes::inputs(large),
         "char_ref" => bounded::ref_strings(large),
+        "wf_reject" => bounded::wf_inputs(),
         "line_ends" => bounded::line_end_inputs(large),
         "level_order" => { let mut v = Vec::new(); for d in 0..3 { for n in 0..12 { v.push(format!("{} {}", d, n)); } } v }
         "scope_queries" => {
@@ -1006,6 +1024,88 @@ mod bounded {
         None
     }
 
+    /// (C03) ill-formed text is rejected, well-formed text accepted, nothing panics; what is accepted is valid,
+    /// serialises to text that is accepted again and reparses deep-equal.  Inputs: "A|doc" (must be accepted),
+    /// "R|doc" (must be rejected), "B|label" (bytes declaring that encoding: any result but a panic)
+    pub fn wf_inputs() -> Vec<String> {
+        let mut v: Vec<String> = Vec::new();
+        // declarations x attributes on one start tag: expectation computed from XML Namespaces
+        let decls = [("p", "u"), ("q", "u"), ("q", "v"), ("p", "v"), ("", "u"), ("", "v")];
+        let attrs = ["x", "p:x", "q:x", "y", "p:y"];
+        let mut decl_sets: Vec<Vec<(&str, &str)>> = vec![vec![]];
+        for a in decls { decl_sets.push(vec![a]); for b in decls { decl_sets.push(vec![a, b]); } }
+        let mut attr_sets: Vec<Vec<&str>> = vec![vec![]];
+        for a in attrs { attr_sets.push(vec![a]); for b in attrs { attr_sets.push(vec![a, b]); for c in attrs { attr_sets.push(vec![a, b, c]); } } }
+        for ds in &decl_sets { for at in &attr_sets {
+            let mut ok = true;
+            for (i, d) in ds.iter().enumerate() { if ds[..i].iter().any(|e| e.0 == d.0) { ok = false; } }
+            let mut seen: Vec<(String, String)> = Vec::new();
+            for a in at {
+                let (pre, local) = match a.split_once(':') { Some((p, l)) => (p, l), None => ("", *a) };
+                let ns = if pre.is_empty() { Some("") } else { ds.iter().find(|d| d.0 == pre).map(|d| d.1) };
+                match ns { None => ok = false, Some(u) => { let k = (u.to_string(), local.to_string()); if seen.contains(&k) { ok = false; } seen.push(k); } }
+            }
+            let mut doc = String::from("<a");
+            for (p, u) in ds { if p.is_empty() { doc.push_str(&format!(" xmlns=\"{}\"", u)); } else { doc.push_str(&format!(" xmlns:{}=\"{}\"", p, u)); } }
+            for a in at { doc.push_str(&format!(" {}=\"1\"", a)); }
+            doc.push_str("/>");
+            v.push(format!("{}|{}", if ok { 'A' } else { 'R' }, doc));
+        }}
+        for d in ["<a/>", "<a></a>", "<a>t</a>", "<!--c--><a/><?p?>", "<?xml version=\"1.0\"?><a/>", "<?xml version=\"1.0\" standalone=\"yes\"?><a/>", "<a><b/>t<![CDATA[x]]></a>",
+                  "<a>&#x9;&#xA;&#xD;&#x20;&#xD7FF;&#xE000;&#xFFFD;&#x10000;&#x10FFFF;</a>", "<a xml:id=\"i\"><b xml:id=\"j\"/></a>", "<p:a xmlns:p=\"u\"><p:b/></p:a>",
+                  "<a xmlns:p=\"a&amp;b\" p:x=\"1\"/>", "<a xmlns:p='a\"b'><p:c/></a>", "<a xmlns=\"u&lt;\"/>", "<a x='&quot;'/>", "\u{feff}<a/>", "<a>\r\n</a>"] {
+            v.push(format!("A|{}", d));
+        }
+        for d in ["", " ", "<a>", "</a>", "<a></b>", "<a/><b/>", "x<a/>", "<a/>x", "<a><b></a></b>", "<a", "<a>&</a>", "<a>&amp</a>", "<a><</a>", "<a x=\"<\"/>", "<a x=\"&\"/>", "<a x=1/>", "<a x/>",
+                  "<!-- -- --><a/>", "<a><!-- x</a>", "<a><!--x--->y</a>", "<?xml version=\"1.1\"?><a/>", "<?xml version=\"2.0\"?><a/>", "<!DOCTYPE a><a/>", "<!DOCTYPE a [<!ENTITY e \"x\">]><a>&e;</a>",
+                  "<a><![CDATA[x</a>", "<a>]]></a>", "<a>&#0;</a>", "<a>&#xD800;</a>", "<a>&#xFFFE;</a>", "<a>&#x110000;</a>", "<a>&#x;</a>", "<a>&#;</a>", "<a>&#x1g;</a>", "<a>&#+65;</a>", "<a>&nbsp;</a>",
+                  "<a xml:id=\"i\"><b xml:id=\"i\"/></a>", "<a xml:id=\"i\"><b xml:id=\" i \"/></a>", "<a><?pi</a>", "<a><?xml x?></a>", "<p:a/>", "<a p:x=\"1\"/>", "<a xmlns:p=\"u\"><q:b/></a>",
+                  "<a xmlns:p=\"u&bogus;\"/>", "<a xmlns:p=\"u\" xmlns:p=\"u\"/>", "<a x=\"1\" x=\"1\"/>", "<a><b x=\"1\" y=\"2\" x=\"3\"/></a>", "<a>\u{0}</a>", "<a>\u{1}</a>", "<a>\u{ffff}</a>", "<?xml version=\"1.0\"?>", "<a/><!--", "<a></a></a>"] {
+            v.push(format!("R|{}", d));
+        }
+        for l in ["UTF-8", "utf-8", "ISO-8859-1", "windows-1252", "US-ASCII", "foo", "UTF-16", "UTF-16LE", "UTF-32", "EBCDIC-CP-US", "x-user-defined", "", "replacement", "UTF-7", "Shift_JIS", "KOI8-R"] {
+            v.push(format!("B|{}", l));
+        }
+        v
+    }
+
+    pub fn wf_reject(input: &str) -> Option<String> {
+        let (kind, doc) = input.split_once('|')?;
+        if kind == "B" {
+            let bytes = format!("<?xml version=\"1.0\" encoding=\"{}\"?><a>\u{e9}</a>", doc).into_bytes();
+            let r = std::panic::catch_unwind(|| { let mut xot = Xot::new(); xot.parse_bytes(&bytes).is_ok() });
+            return match r { Err(_) => Some(format!("parse_bytes panics on a document declaring encoding {:?}", doc)), Ok(_) => None };
+        }
+        let r = std::panic::catch_unwind(|| {
+            let mut xot = Xot::new();
+            match xot.parse(doc) {
+                Err(_) => Err(()),
+                Ok(root) => {
+                    // accepted: valid, serialisable, accepted again, deep-equal
+                    if xot.validate_well_formed_document(root).is_err() { return Ok(Some("accepted, but validate_well_formed_document fails".to_string())); }
+                    let s = match xot.to_string(root) { Ok(s) => s, Err(e) => return Ok(Some(format!("accepted, but does not serialise: {:?}", e))) };
+                    let root2 = match xot.parse(&s) { Ok(r) => r, Err(e) => return Ok(Some(format!("accepted, but its serialisation {:?} is rejected: {:?}", s, e))) };
+                    if !xot.deep_equal(root, root2) { return Ok(Some(format!("accepted, but its serialisation {:?} reparses to a different tree", s))); }
+                    // attribute names and declared prefixes are unique per element
+                    for n in xot.descendants(root) {
+                        let mut k: Vec<_> = xot.attributes(n).keys().collect(); let l = k.len(); k.sort(); k.dedup();
+                        if k.len() != l { return Ok(Some("accepted with two attributes of the same expanded name on one element".to_string())); }
+                        let mut k: Vec<_> = xot.namespaces(n).keys().collect(); let l = k.len(); k.sort(); k.dedup();
+                        if k.len() != l { return Ok(Some("accepted with one prefix declared twice on one element".to_string())); }
+                    }
+                    Ok(None)
+                }
+            }
+        });
+        match (kind, r) {
+            (_, Err(_)) => Some(format!("parse panics on {:?}", doc)),
+            ("R", Ok(Ok(_))) => Some(format!("{:?} is not well-formed (or breaks a namespace constraint) but is accepted", doc)),
+            ("A", Ok(Err(()))) => Some(format!("{:?} is well-formed but is rejected", doc)),
+            (_, Ok(Ok(Some(d)))) => Some(format!("{:?}: {}", doc, d)),
+            _ => None,
+        }
+    }
+
     /// level_order against a reference breadth-first traversal built from `children`
     pub fn level_order(input: &str) -> Option<String> {
         let f: Vec<&str> = input.split(' ').collect();
@@ -1289,6 +1389,146 @@ mod deepeq {
         for i in 0..n { for j in 0..n { v.push(format!("{} {}", i, j)); } }
         v
     }
+}
+
+// (C08) name / namespace / prefix tables against a reference list of registered strings
+#[allow(dead_code)]
+fn c08_id_tables(input: &str) -> Option<String> {
+    // input: "<n> <stride> <via>": n strings registered in the order i*stride mod n, every third one twice;
+    // via = api | parse (names registered implicitly by parsing a document that uses them)
+    let f: Vec<&str> = input.split(' ').collect();
+    let (n, stride): (usize, usize) = (f[0].parse().ok()?, f[1].parse().ok()?);
+    let mut xot = Xot::new();
+    let builtin = [xot.no_namespace(), xot.xml_namespace()];
+    if builtin[0] == builtin[1] { return Some("built-in namespaces are not distinct".into()); }
+    if xot.namespace_str(xot.no_namespace()) != "" || xot.namespace_str(xot.xml_namespace()) != "http://www.w3.org/XML/1998/namespace" { return Some("built-in namespaces do not resolve to their standard strings".into()); }
+    if xot.prefix_str(xot.empty_prefix()) != "" || xot.prefix_str(xot.xml_prefix()) != "xml" || xot.empty_prefix() == xot.xml_prefix() { return Some("built-in prefixes wrong".into()); }
+    if xot.name_ns_str(xot.xml_space_name()) != ("space", "http://www.w3.org/XML/1998/namespace") || xot.name_ns_str(xot.xml_id_name()) != ("id", "http://www.w3.org/XML/1998/namespace") || xot.xml_space_name() == xot.xml_id_name() { return Some("built-in names wrong".into()); }
+    let mut names: Vec<(String, String, xot::NameId)> = Vec::new();
+    let mut nss: Vec<(String, xot::NamespaceId)> = Vec::new();
+    let mut pres: Vec<(String, xot::PrefixId)> = Vec::new();
+    let order: Vec<usize> = (0..n).map(|i| (i * stride) % n).collect();
+    for (step, i) in order.iter().enumerate() {
+        let uri = format!("urn:ns{}", i % 5);
+        let (local, pre) = (format!("n{}", i), format!("p{}", i));
+        // read-only lookups find exactly what has been registered
+        let known = names.iter().find(|(l, u, _)| *l == local && *u == uri).map(|x| x.2);
+        if let Some(nsid) = xot.namespace(&uri) { if xot.name_ns(&local, nsid) != known { return Some(format!("step {}: name_ns({:?}, {:?}) = {:?} before registration, expected {:?}", step, local, uri, xot.name_ns(&local, nsid), known)); } }
+        let (nsid, nid, pid) = if f[2] == "parse" {
+            let doc = format!("<{}:{} xmlns:{}=\"{}\"/>", pre, local, pre, uri);
+            let root = xot.parse(&doc).ok()?;
+            let de = xot.document_element(root).ok()?;
+            let nid = xot.element(de)?.name();
+            (xot.namespace_for_name(nid), nid, xot.prefix(&pre)?)
+        } else {
+            let nsid = xot.add_namespace(&uri);
+            (nsid, xot.add_name_ns(&local, nsid), xot.add_prefix(&pre))
+        };
+        for (what, ok) in [("namespace", nss.iter().all(|(u, id)| (*u == uri) == (*id == nsid))), ("name", names.iter().all(|(l, u, id)| (*l == local && *u == uri) == (*id == nid))), ("prefix", pres.iter().all(|(p, id)| (*p == pre) == (*id == pid)))] {
+            if !ok { return Some(format!("step {} ({} #{}): the {} id coincides with the id of a different string, or differs from the id of the same string", step, f[2], i, what)); }
+        }
+        if !nss.iter().any(|(u, _)| *u == uri) { nss.push((uri.clone(), nsid)); }
+        if !names.iter().any(|(l, u, _)| *l == local && *u == uri) { names.push((local.clone(), uri.clone(), nid)); }
+        if !pres.iter().any(|(p, _)| *p == pre) { pres.push((pre.clone(), pid)); }
+        // registering again gives the same id; every earlier id still means the same string and is found by the lookups
+        if step % 3 == 0 && (xot.add_name_ns(&local, nsid) != nid || xot.add_namespace(&uri) != nsid || xot.add_prefix(&pre) != pid) { return Some(format!("step {}: registering #{} again gives a different id", step, i)); }
+        for (l, u, id) in &names {
+            if xot.name_ns_str(*id) != (l.as_str(), u.as_str()) { return Some(format!("step {}: name id of {{{}}}{} now resolves to {:?}", step, u, l, xot.name_ns_str(*id))); }
+            let nsid = xot.namespace(u)?;
+            if xot.name_ns(l, nsid) != Some(*id) { return Some(format!("step {}: name_ns({:?}, {:?}) = {:?}, registered as {:?}", step, l, u, xot.name_ns(l, nsid), id)); }
+        }
+        for (u, id) in &nss { if xot.namespace_str(*id) != u || xot.namespace(u) != Some(*id) { return Some(format!("step {}: namespace {:?}: lookup {:?}, id resolves to {:?}", step, u, xot.namespace(u), xot.namespace_str(*id))); } }
+        for (p2, id) in &pres { if xot.prefix_str(*id) != p2 || xot.prefix(p2) != Some(*id) { return Some(format!("step {}: prefix {:?}: lookup {:?}, id resolves to {:?}", step, p2, xot.prefix(p2), xot.prefix_str(*id))); } }
+        if xot.name_ns("never-registered", nsid).is_some() || xot.prefix("never-registered").is_some() || xot.namespace("urn:never-registered").is_some() { return Some("a read-only lookup finds a string that was never registered".into()); }
+    }
+    // ids keep their meaning in a clone
+    let copy = xot.clone();
+    for (l, u, id) in &names { if copy.name_ns_str(*id) != (l.as_str(), u.as_str()) { return Some("a name id means something else in the cloned Xot".into()); } }
+    None
+}
+
+// (C11) attribute and namespace views against a reference insertion-ordered map
+#[allow(dead_code)]
+fn c11_node_map(input: &str) -> Option<String> {
+    // input: op letters with a key digit each, e.g. "i0i1r0n1": i = insert key, r = remove key, u = update through get_mut,
+    // n = append an attribute node created for key (any_append), m = re-append the element's own node for key,
+    // o = append the node that sits on a second element under key, c = clear, e = entry(key).or_insert
+    let mut xot = Xot::new();
+    let keys: Vec<xot::NameId> = ["k0", "k1", "k2"].iter().map(|k| xot.add_name(k)).collect();
+    let pres: Vec<xot::PrefixId> = ["p0", "p1", "p2"].iter().map(|k| xot.add_prefix(k)).collect();
+    let uris: Vec<xot::NamespaceId> = (0..8).map(|i| xot.add_namespace(&format!("urn:{}", i))).collect();
+    let root = xot.parse("<d><e><c/></e><f k0=\"F0\" k1=\"F1\" k2=\"F2\" xmlns:p0=\"urn:7\" xmlns:p1=\"urn:7\" xmlns:p2=\"urn:7\"/></d>").ok()?;
+    let d = xot.document_element(root).ok()?;
+    let e = xot.first_child(d)?;
+    let other = xot.next_sibling(e)?;
+    let mut ra: Vec<(usize, String)> = Vec::new();      // reference attribute map
+    let mut rn: Vec<(usize, usize)> = Vec::new();       // reference namespace map: prefix index -> uri index
+    let mut other_a: Vec<usize> = vec![0, 1, 2];
+    let cs: Vec<char> = input.chars().collect();
+    let mut step = 0;
+    let mut counter = 0usize;
+    while step + 1 < cs.len() {
+        let (op, k) = (cs[step], cs[step + 1].to_digit(10)? as usize % 3);
+        counter += 1;
+        let val = format!("v{}", counter);
+        let uri = counter % 7;
+        match op {
+            'i' => { xot.attributes_mut(e).insert(keys[k], val.clone()); xot.namespaces_mut(e).insert(pres[k], uris[uri]);
+                     match ra.iter_mut().find(|x| x.0 == k) { Some(x) => x.1 = val, None => ra.push((k, val)) }
+                     match rn.iter_mut().find(|x| x.0 == k) { Some(x) => x.1 = uri, None => rn.push((k, uri)) } }
+            'r' => { let got = xot.attributes_mut(e).remove(keys[k]); let want = ra.iter().find(|x| x.0 == k).map(|x| x.1.clone());
+                     if got != want { return Some(format!("{}: remove returned {:?}, reference {:?}", &input[..step + 2], got, want)); }
+                     ra.retain(|x| x.0 != k); xot.namespaces_mut(e).remove(pres[k]); rn.retain(|x| x.0 != k); }
+            'u' => { if let Some(v) = xot.attributes_mut(e).get_mut(keys[k]) { *v = val.clone(); } if let Some(x) = ra.iter_mut().find(|x| x.0 == k) { x.1 = val; } }
+            'n' => { let node = xot.new_attribute_node(keys[k], val.clone()); xot.any_append(e, node).ok()?;
+                     match ra.iter_mut().find(|x| x.0 == k) { Some(x) => x.1 = val, None => ra.push((k, val)) } }
+            'm' => { if let Some(node) = xot.attributes(e).get_node(keys[k]) { let before = xot.attributes(e).get_node(keys[k]);
+                        let r = xot.append_attribute_node(e, node).ok()?;
+                        if Some(r) != before || xot.is_removed(r) { return Some(format!("{}: re-appending the element's own attribute node returns {:?} (removed: {})", &input[..step + 2], r, xot.is_removed(r))); } } }
+            'o' => { if let Some(node) = xot.attributes(other).get_node(keys[k]) {
+                        let v = xot.attributes(other).get(keys[k])?.clone();
+                        let existed = ra.iter().any(|x| x.0 == k);
+                        xot.append_attribute_node(e, node).ok()?;
+                        match ra.iter_mut().find(|x| x.0 == k) { Some(x) => x.1 = v, None => ra.push((k, v)) }
+                        if !existed { other_a.retain(|x| *x != k); }     // the node moved; with an existing key only the value is copied
+                        let got: Vec<usize> = xot.attributes(other).keys().map(|n| keys.iter().position(|x| *x == n).unwrap()).collect();
+                        if got != other_a { return Some(format!("{}: the attribute map of the other element is now {:?}, expected {:?}", &input[..step + 2], got, other_a)); } } }
+            'c' => { xot.attributes_mut(e).clear(); ra.clear(); }
+            'e' => { xot.attributes_mut(e).entry(keys[k]).or_insert(val.clone()); if !ra.iter().any(|x| x.0 == k) { ra.push((k, val)); } }
+            _ => return None,
+        }
+        step += 2;
+        let here = &input[..step];
+        // every accessor of both views against the reference
+        let want: Vec<(xot::NameId, String)> = ra.iter().map(|(k, v)| (keys[*k], v.clone())).collect();
+        let ro = xot.attributes(e);
+        if ro.len() != want.len() || ro.is_empty() != want.is_empty() { return Some(format!("{}: len {} / is_empty {}, reference has {} entries", here, ro.len(), ro.is_empty(), want.len())); }
+        if ro.to_vec() != want { return Some(format!("{}: to_vec {:?}, reference {:?}", here, ro.to_vec(), want)); }
+        if ro.keys().collect::<Vec<_>>() != want.iter().map(|x| x.0).collect::<Vec<_>>() || ro.values().cloned().collect::<Vec<_>>() != want.iter().map(|x| x.1.clone()).collect::<Vec<_>>() { return Some(format!("{}: keys / values disagree with the reference", here)); }
+        if ro.iter().map(|(k, v)| (k, v.clone())).collect::<Vec<_>>() != want { return Some(format!("{}: iter disagrees with the reference", here)); }
+        let nodes: Vec<_> = ro.nodes().collect();
+        if nodes.len() != want.len() || nodes.iter().any(|n| xot.is_removed(*n)) { return Some(format!("{}: nodes() has {} nodes (reference {}), or hands out a removed node", here, nodes.len(), want.len())); }
+        for (i, k) in keys.iter().enumerate() {
+            let w = ra.iter().find(|x| x.0 == i).map(|x| &x.1);
+            if ro.get(*k) != w || ro.contains_key(*k) != w.is_some() { return Some(format!("{}: get / contains_key of k{} = {:?}, reference {:?}", here, i, ro.get(*k), w)); }
+            let pos = ra.iter().position(|x| x.0 == i);
+            if ro.get_node(*k) != pos.map(|p| nodes[p]) { return Some(format!("{}: get_node(k{}) is not the node at the key's position", here, i)); }
+        }
+        let hm = ro.to_hashmap();
+        if hm.len() != want.len() || want.iter().any(|(k, v)| hm.get(k) != Some(v)) { return Some(format!("{}: to_hashmap disagrees with the reference", here)); }
+        let (ml, me, mv) = { let m = xot.attributes_mut(e); (m.len(), m.is_empty(), m.to_vec()) };
+        if ml != want.len() || me != want.is_empty() || mv != want { return Some(format!("{}: mutable view: len {} is_empty {} to_vec {:?}, reference {:?}", here, ml, me, mv, want)); }
+        let wantn: Vec<(xot::PrefixId, xot::NamespaceId)> = rn.iter().map(|(k, u)| (pres[*k], uris[*u])).collect();
+        if xot.namespaces(e).to_vec() != wantn || xot.namespaces(e).len() != wantn.len() { return Some(format!("{}: namespace view {:?}, reference {:?}", here, xot.namespaces(e).to_vec(), wantn)); }
+        // serialisation writes declarations, then attributes, in map order
+        let s = xot.to_string(e).ok()?;
+        let mut wants = String::from("<e");
+        for (k, u) in &rn { wants.push_str(&format!(" xmlns:p{}=\"urn:{}\"", k, u)); }
+        for (k, v) in &ra { wants.push_str(&format!(" k{}=\"{}\"", k, v)); }
+        wants.push_str("><c/></e>");
+        if s != wants { return Some(format!("{}: serialised as {:?}, reference order gives {:?}", here, s, wants)); }
+    }
+    None
 }
 
 // (C09) scope queries against nearest-declaration-wins, computed independently from the declarations on the path
